@@ -58,9 +58,8 @@ def define():
         views("None", "none", "stack", "Q16", off=off, tier="quick" if off != 3 else "rot2")
         views("None", "none", "stack", "A32", off=off, tier="rot2")
         views("None", "none", "stackn", "A64", off=off, tier="rot2")
-        aligned_use("none", "stack", "A64", off=off, tier="quick" if off == 1 else "rot2")
         aligned_use("none", "stack", "W8D", off=off, tier="quick" if off == 1 else "rot2")
-        aligned_use("none", "stackn", "Q16", off=off, tier="rot2")
+        aligned_use("none", "stackn", "H2", off=off, tier="rot2")
     aligned_use("none", "heap", "A32")
     # C13 quick
     for i, a in enumerate(ACCS):
@@ -84,7 +83,9 @@ def define():
                     continue
                 for off in ((0, 1, 2, 3) if b in ("stack", "stackn") else (0,)):
                     views(via, "none", b, elem, capv=2, tier="thorough", off=off)
-            if b != "reloc" and ELEMS[elem][0]:
+            # typed use of over-aligned elements on inline storage is the recorded known finding (views_h reports it
+            # cheaply); a typed write through the misaligned pointer makes CBMC explode (54 GB), so it is not instantiated
+            if b != "reloc" and ELEMS[elem][0] and not (b in ("stack", "stackn") and ELEMS[elem][1] > 8):
                 for off in ((0, 1, 2, 3) if b in ("stack", "stackn") else (0,)):
                     aligned_use("none", b, elem, tier="thorough", off=off)
     for a in ACCS:
